@@ -3720,7 +3720,15 @@ fn parse_sequence_keys(exprs: &[SExpr], s: &ParserState) -> Result<Vec<u16>> {
                                     // press->press: current press is mod
                                     mods_currently_held.push(*pressed);
                                 }
-                                let mut seq_num = u16::from(OsCode::from(pressed));
+                                // The run-time side (do_sequence_press_logic) folds the right-hand shift,
+                                // ctrl and meta keys into their left-hand counterparts before the lookup;
+                                // do the same here so that `RS-a`, `RC-a`, `rsft` ... can be typed at all.
+                                let mut seq_num = u16::from(match OsCode::from(pressed) {
+                                    OsCode::KEY_RIGHTSHIFT => OsCode::KEY_LEFTSHIFT,
+                                    OsCode::KEY_RIGHTMETA => OsCode::KEY_LEFTMETA,
+                                    OsCode::KEY_RIGHTCTRL => OsCode::KEY_LEFTCTRL,
+                                    osc => osc,
+                                });
                                 for modk in mods_currently_held.iter().copied() {
                                     seq_num |= mod_mask_for_keycode(modk);
                                 }
